@@ -145,8 +145,11 @@ Definition replace_all (old new l : list ascii) : list ascii :=
   | _ => replace_all_ne (S (List.length l)) old new l
   end.
 
-Definition redact_plan_summary (repl : string) (ps : string) : string :=
+Definition redact_plan_summary_with (hn : string -> string) (ps : string) : string :=
   if String.eqb ps "COLLSCAN" then ps else
   string_of_list_ascii
-    (fold_left (fun acc f => replace_all (list_ascii_of_string f) (list_ascii_of_string (hash_name repl f)) acc)
+    (fold_left (fun acc f => replace_all (list_ascii_of_string f) (list_ascii_of_string (hn f)) acc)
                (parse_plan_summary ps) (list_ascii_of_string ps)).
+
+Definition redact_plan_summary (repl : string) (ps : string) : string :=
+  redact_plan_summary_with (hash_name repl) ps.
